@@ -281,9 +281,14 @@ class TerminatorListener(Listener):
 
     def info(self, orb):
 
-        orb2 = orb.copy(frame=self._frame, form="spherical")
+        # Sign of the time derivative of the watched quantity (cosine of the
+        # angle between the satellite and the Sun), i.e. of sat . sun
+        sun = np.asarray(
+            self.sun.propagate(orb.date).copy(frame=orb.frame, form="cartesian")
+        )
+        sat = np.asarray(orb.copy(form="cartesian"))
 
-        if orb2.r_dot > 0:
+        if sat[3:] @ sun[:3] + sat[:3] @ sun[3:] < 0:
             msg = "Night Terminator"
         else:
             msg = "Day Terminator"
